@@ -62,11 +62,16 @@ def gen():
         return sp
 
     def with_ids(t):
-        sp, perm = t
+        sp, perm, mini, big = t
         sp["ids"] = [["zz_first", "mm_middle", "aa_last"][i] for i in perm][: len(sp["kernels"])] if perm else None
+        sp["minimize"] = mini           # Engine(minimize_transition_infos=True) with the kernel's own / the inherited default minimize()
+        for kk, b in zip(sp["kernels"], big):
+            if kk.get("errs"):
+                kk["errs"]["big"] = b   # documented codes beyond one byte (256, 300)
         return sp
 
-    return st.tuples(base.map(fix), st.one_of(st.none(), st.permutations([0, 1, 2]))).map(with_ids)
+    return st.tuples(base.map(fix), st.one_of(st.none(), st.permutations([0, 1, 2])), st.sampled_from([None, None, "own", "inherit"]),
+                     st.lists(st.booleans(), min_size=3, max_size=3)).map(with_ids)
 
 
 def phases(spec):
@@ -196,7 +201,8 @@ def oracle(spec):
                 require(tuple(dims[:2]) == ("chain", "draw"), f"arviz:{grp}:dims", f"{dims}")
     nt = len(n_codes) >= 2 and both_phases and subset and len(spec["kernels"]) >= 2 and errfree
     cls = [f"codes{len(n_codes)}", "both-phases" if both_phases else "one-phase", "subset" if subset else "nosubset",
-           f"kernels{len(spec['kernels'])}", "errfree-kernel" if errfree else "all-err", f"chains{C}"] + sorted({k["errs"]["mode"] for k in spec["kernels"]})
+           f"kernels{len(spec['kernels'])}", "errfree-kernel" if errfree else "all-err", f"chains{C}", f"minimize:{spec.get('minimize')}",
+           "codes>255" if any(c > 255 for c in n_codes) else "codes<256"] + sorted({k["errs"]["mode"] for k in spec["kernels"]})
     return {"nt": bool(nt), "cls": cls}
 
 
